@@ -303,4 +303,67 @@ theorem binary_step {tok : Token} {l' r' : RExpr F} {a b : Value F} {τl τr τ 
       rw [hrb]
       exact ⟨hev, Or.inr (by simp [inert])⟩
 
+/-- Type soundness of `Eval` on the well-typed class. -/
+theorem eval_ty {Γ : Str → Option Ty} {env : Str → Option (Value F)}
+    (henv : EnvOk Γ env) {e : RExpr F} {τ : Ty} (ht : HasType Γ e τ) :
+    tyOf (eval A S true (Valuer.map env) e) = some τ := by
+  induction ht with
+  | bool b => simp [eval, tyOf]
+  | int v h => simp [eval, tyOf]
+  | uint v => simp [eval, tyOf]
+  | num v => simp [eval, tyOf]
+  | str s => simp [eval, tyOf]
+  | var x dt τ hx =>
+    obtain ⟨v, hv, hty, _⟩ := henv x τ hx
+    simp [eval, Valuer.map, hv, hty]
+  | paren e τ _ ih => simpa [eval] using ih
+  | binary tok l r τl τr τ _ _ hop ihl ihr =>
+    simp only [eval]
+    exact evalBin_ty A S ihl ihr hop
+
+/-- No string literal occurs in the expression. -/
+def noStrLit : RExpr F → Bool
+  | .str _ => false
+  | .binary _ l r => noStrLit l && noStrLit r
+  | .paren e => noStrLit e
+  | _ => true
+
+theorem opTy_ne_str {op : BinOp} {l r τ : Ty} (h : opTy op l r = some τ) : τ ≠ .str := by
+  cases op <;> cases l <;> cases r <;> simp [opTy, numJoin] at h <;> subst h <;> simp
+
+theorem ty_ne_str {Γ : Str → Option Ty} {e : RExpr F} {τ : Ty} (ht : HasType Γ e τ)
+    (hns : ∀ x τ', Γ x = some τ' → τ' ≠ .str) (hnl : noStrLit e = true) : τ ≠ .str := by
+  induction ht with
+  | bool b => simp
+  | int v h => simp
+  | uint v => simp
+  | num v => simp
+  | str s => simp [noStrLit] at hnl
+  | var x dt τ hx => exact hns x τ hx
+  | paren e τ _ ih => exact ih (by simpa [noStrLit] using hnl)
+  | binary tok l r τl τr τ _ _ hop _ _ => exact opTy_ne_str hop
+
+theorem dateOk_of_ne_str {op : BinOp} {a b : Value F} {τ : Ty} (ha : tyOf a = some τ)
+    (hτ : τ ≠ .str) : dateOk S op a b = true := by
+  cases a <;> simp [tyOf] at ha <;> subst ha <;> simp at hτ <;> cases op <;> simp [dateOk]
+
+/-- Without string literals and string variables every expression is `dateSafe`. -/
+theorem dateSafe_of_noStr {Γ : Str → Option Ty} {env : Str → Option (Value F)}
+    (henv : EnvOk Γ env) {e : RExpr F} {τ : Ty} (ht : HasType Γ e τ)
+    (hns : ∀ x τ', Γ x = some τ' → τ' ≠ .str) (hnl : noStrLit e = true) :
+    dateSafe A S (Valuer.map env) e = true := by
+  induction ht with
+  | bool b => simp [dateSafe]
+  | int v h => simp [dateSafe]
+  | uint v => simp [dateSafe]
+  | num v => simp [dateSafe]
+  | str s => simp [dateSafe]
+  | var x dt τ hx => simp [dateSafe]
+  | paren e τ _ ih => simpa [dateSafe] using ih (by simpa [noStrLit] using hnl)
+  | binary tok l r τl τr τ hl _ hop ihl ihr =>
+    simp only [noStrLit, Bool.and_eq_true] at hnl
+    simp only [dateSafe, Bool.and_eq_true]
+    exact ⟨⟨ihl hnl.1, ihr hnl.2⟩,
+      dateOk_of_ne_str S (eval_ty A S henv hl) (ty_ne_str hl hns hnl.1)⟩
+
 end InfluxQL.C09
